@@ -4,6 +4,7 @@ from __future__ import annotations
 import ast
 import importlib.util
 import os
+import re
 from typing import Any, Dict, List, Optional, Set, Tuple
 
 from .. import termrules as T
@@ -156,36 +157,35 @@ def run(ctx: Ctx, env):
     ctx.check(any_join, "R3.joins-what-the-visitor-collected", "sqlalchemy.apply_odata_query|loop",
               "no path of the ORM shorthand joins the relationships collected by the visitor: path filters reference unjoined tables", m.loc(fn),
               "author/name eq 'A'")
-    # the skip test: a join may be skipped only by comparing with the joins already on the query
-    skip_ok = False
-    for n in ast.walk(fn):
-        if isinstance(n, ast.For) and "join_relationships" in ast.unparse(n.iter):
-            for x in ast.walk(n):
-                if isinstance(x, ast.If) and ("not in" in ast.unparse(x.test) or "in " in ast.unparse(x.test)):
-                    skip_ok = True
-            if not any(isinstance(x, ast.If) for x in ast.walk(n)):
-                skip_ok = True  # unconditional join: nothing is skipped
-    # the skip decision must be able to tell relationships of different models apart: a test that looks only
-    # at the relationship's bare attribute name (.key) skips a needed join when another model has a relationship of that name
-    for n in ast.walk(fn):
-        if isinstance(n, ast.For) and "join_relationships" in ast.unparse(n.iter) and isinstance(n.target, ast.Name):
-            var = n.target.id
-            for x in ast.walk(n):
-                if isinstance(x, ast.If):
-                    bare = False
-                    attrs = set()
-                    for y in ast.walk(x.test):
-                        if isinstance(y, ast.Attribute) and isinstance(y.value, ast.Name) and y.value.id == var:
-                            attrs.add(y.attr)
-                    for y in ast.walk(x.test):
-                        if isinstance(y, ast.Name) and y.id == var:
-                            parent_attr = any(isinstance(z, ast.Attribute) and z.value is y for z in ast.walk(x.test))
-                            if not parent_attr:
-                                bare = True
-                    ctx.check(bare or not attrs, "R3.join-skip-identifies-the-relationship", "sqlalchemy.apply_odata_query|skip-test",
-                              f"the decision to skip a join looks only at `{var}.{'/'.join(sorted(attrs))}`: a relationship with the same name on another "
-                              "model already joined on the query makes the needed join disappear", m.loc(x),
-                              "base query joined on Ticket.owner, filter project/owner/name eq 'Core'")
+    # the skip decision, read off the evaluated paths: inside the loop over the collected relationships a join may be left out
+    # only when a membership test of that relationship against the joins already on the incoming query succeeded, and the
+    # decision must take the relationship's full identity (str(relationship)) into account, not only its bare .key
+    n_loop = 0
+    for p in res:
+        if p.outcome != "return":
+            continue
+        conds = list(p.conds)
+        if not any(k.startswith("empty(collected(") and "join_relationships" in k and v is False for k, v in conds):
+            continue
+        n_loop += 1
+        memb = [(k, v) for k, v in conds if k.startswith("in(") and "elemof(collected(" in k.split(",Map(")[0].split(",call(")[0] and "param('query')" in k]
+        bare = [(k, v) for k, v in memb if re.match(r"in\(S'\{elemof\(collected\([^)]*\)\)\|str\}'", k)]
+        keyed = [(k, v) for k, v in memb if "'key')" in k.split(",Map(")[0]]
+        joined = any(c[0] in ("join", "outerjoin") and c[1] and "elemof" in repr(c[1][0]) and "collected" in repr(c[1][0])
+                     for c in _chain(T.norm(p.value))[1])
+        key = f"sqlalchemy.apply_odata_query|{p.cond_str()[-80:]}"
+        if joined:
+            ctx.check(not any(v for _, v in memb), "R3.join-skipped-only-if-present", "sqlalchemy.apply_odata_query|skip-test",
+                      "a relationship found among the joins already on the query is joined again", m.loc(fn))
+        else:
+            ctx.check(any(v for _, v in memb), "R3.join-skipped-only-if-present", "sqlalchemy.apply_odata_query|skip-test",
+                      "the join loop must either join every collected relationship or skip exactly those already joined on the incoming query: "
+                      f"a needed join is skipped under {p.cond_str()[-160:]}", m.loc(fn), "author/name eq 'A'")
+        ctx.check(not keyed or bool(bare), "R3.join-skip-identifies-the-relationship", "sqlalchemy.apply_odata_query|skip-test",
+                  "the decision to skip a join looks only at the relationship's bare `.key`: a relationship with the same name on another "
+                  "model already joined on the query makes the needed join disappear", m.loc(fn),
+                  "base query joined on Ticket.owner, filter project/owner/name eq 'Core'")
+    ctx.floor("paths through the join loop", n_loop, 2)
     helper = m.functions.get("_get_joined_attrs") if hasattr(m, "functions") else None
     if helper is not None:
         interp = env.interp()
@@ -199,8 +199,6 @@ def run(ctx: Ctx, env):
             ctx.check(not lossy, "R3.existing-joins-unabridged", "sqlalchemy._get_joined_attrs",
                       f"existing joins are reported as `{T.show(t, 120)}`: anything but the full str(<join target>) lets different relationships collide",
                       m.loc(helper), "base query joined on Ticket.owner, filter project/owner/name eq 'Core'")
-    ctx.check(skip_ok, "R3.join-skipped-only-if-present", "sqlalchemy.apply_odata_query|skip-test",
-              "the join loop must either join every collected relationship or skip exactly those already joined on the incoming query", m.loc(fn))
 
     # ---- Core shorthand ---------------------------------------------------------------------------------------------
     _check_chain(ctx, env, "sqlalchemy.apply_odata_core", "odata_query.sqlalchemy.shorthand", "apply_odata_core", "AstToSqlAlchemyCoreVisitor")
@@ -217,10 +215,20 @@ def run(ctx: Ctx, env):
         for st in ci.node.body:
             if isinstance(st, ast.Assign) and len(st.targets) == 1 and isinstance(st.targets[0], ast.Name):
                 own[st.targets[0].id] = st.value
-        pkg = own.get("package")
-        reg = own.get("_register")
-        pkg_v = pkg.value if isinstance(pkg, ast.Constant) else None
-        isolated = (isinstance(pkg_v, str) and pkg_v != reg_default) or (isinstance(reg, ast.Constant) and reg.value is False)
+            elif isinstance(st, ast.AnnAssign) and isinstance(st.target, ast.Name) and st.value is not None:
+                own[st.target.id] = st.value
+
+        def const_of(e):
+            if e is None:
+                return None
+            try:
+                return repo.fold(ci.module, e)
+            except Exception:
+                return None
+
+        pkg_v = const_of(own.get("package"))
+        reg_v = const_of(own.get("_register"))
+        isolated = (isinstance(pkg_v, str) and pkg_v != reg_default) or (reg_v is False)
         ctx.check(isolated, "R4.function-registry-isolated", ci.name,
                   f"GenericFunction subclass `{ci.name}` does not declare its own `package` (other than {reg_default!r}) in its class body: importing the "
                   f"back end replaces sqlalchemy.func.{own.get('name').value if isinstance(own.get('name'), ast.Constant) else ci.name} for the host application",
